@@ -325,6 +325,33 @@ def kernel_emul(Mmat, lam, var, y, mu):
     return -0.5 * (chi2 + ld)
 
 
+def input_ulp_sensitivity(lin, P_day, e, omega, M0, s, ulps=(2, -2, 1, -1)):
+    """max |ll(P(1+k eps), omega(1+k eps), M0(1+k eps), s(1+k eps)) - ll(P, omega, M0, s)| of the kernel's declared algorithm
+    (kernel_emul): how far the value moves when the nonlinear inputs move by a unit conversion's worth of rounding. The
+    phase 2 pi (t - t_ref) / P amplifies an ulp of P by the number of elapsed cycles, which no relative perturbation of
+    the design-matrix column reproduces."""
+    n, L = len(lin.y), lin.L
+
+    def ll_at(P_, om_, M0_, s_):
+        z = np.asarray(z_column(lin, P_, e, om_, M0_, "c"), dtype=float)
+        Mmat = np.column_stack([z, lin.D]) if L > 1 else z.reshape(n, 1)
+        lam = np.concatenate([[lin.var_K(P_, e)], lin.lam_rest])
+        with np.errstate(all="ignore"):
+            return kernel_emul(Mmat, lam, lin.sig ** 2 + float(s_) ** 2, lin.y, lin.mu)
+    try:
+        base = ll_at(P_day, omega, M0, s)
+        worst = 0.0
+        for k in ulps:
+            f = 1.0 + k * EPS
+            d = abs(ll_at(P_day * f, omega * f, M0 * f, s * f) - base)
+            if not np.isfinite(d):
+                return float("inf")
+            worst = max(worst, d)
+        return worst
+    except Exception:
+        return float("inf")
+
+
 def emulation_spread(Mmat, lam, var, y, mu, k=3):
     """(max |emul(perturbed) - emul|, emul) over k one-ulp perturbations; (0, nan)-like values never tighten anything."""
     with np.errstate(all="ignore"):
